@@ -53,9 +53,52 @@ func randASCII(r *hx.Rand, n int) string {
 	return sb.String()
 }
 
-// genNamespace: utf8Only is set for the encodings that go through JSON / protobuf string fields.
+// bytes and runes that encoders treat specially: every C0 control, DEL, C1 controls, line / paragraph separators,
+// BOM, non-characters, unassigned and private-use supplementary runes, the replacement character, quotes, backslashes
+var specialRunes = func() []string {
+	out := []string{}
+	for c := 0; c < 0x20; c++ {
+		out = append(out, string(rune(c)))
+	}
+	return append(out, "\x7f", "\u0080", "\u0085", "\u009f", "\u00a0", "\u2028", "\u2029", "\ufeff", "\ufffe", "\uffff", "\ufdd0",
+		"\U000e0020", "\U000e0001", "\U0010ffff", "\U000f0000", "\U0001f600", "\ufffd", "\"", "\\", "\\u0041", "\\n", "'", "<", ">", "&", "/", " ")
+}()
+
+// byte strings that are not UTF-8: a surrogate, an overlong form, a truncated sequence, stray bytes
+var invalidUTF8 = []string{"\xed\xa0\x80", "\xed\xbf\xbf", "\xc0\x80", "\xe0\x80\x80", "\xf0\x80\x80\x80", "\xc3", "\xe6\x9d", "\xf0\x9f\x98", "\x80", "\xbf", "\xff", "\xfe", "\xf5\x80\x80\x80", "\xf4\x90\x80\x80"}
+
+// genNamespace draws a namespace; every encoding gets every class (what each does with invalid UTF-8 is part of
+// the model: JSON substitutes U+FFFD, protobuf refuses, text and YAML carry the bytes)
 func genNamespace(c *hx.Ctx, utf8Only bool) string {
 	r := c.Rand
+	switch k := r.Intn(16); {
+	case k == 10 || k == 11:
+		c.Note("ns:special-runes")
+		n := 1 + r.Intn(3)
+		var sb strings.Builder
+		for i := 0; i < n; i++ {
+			sb.WriteString(r.Pick([]string{"a", "ns/", "", ".", "x y"}))
+			sb.WriteString(r.Pick(specialRunes))
+		}
+		sb.WriteString(r.Pick([]string{"", "b", "/z"}))
+		return sb.String()
+	case k == 12:
+		c.Note("ns:invalid-utf8")
+		return r.Pick([]string{"", "a", "é/"}) + r.Pick(invalidUTF8) + r.Pick([]string{"", "b", "/語"})
+	case k == 13:
+		c.Note("ns:edge-spaces")
+		return r.Pick([]string{" ", "  ", "\t", " a", "a ", " a/b ", "a\n", "\na"})
+	case k == 14:
+		if r.Chance(1, 12) {
+			c.Note("ns:64KiB")
+			return strings.Repeat(r.Pick([]string{"é/", "ab", "\u2028x"}), 33000)
+		}
+		c.Note("ns:long")
+		return strings.Repeat(r.Pick([]string{"n", "é/", "a\x01"}), 130+r.Intn(200))
+	case k == 15:
+		c.Note("ns:known")
+		return r.Pick(knownNamespaces)
+	}
 	switch k := r.Intn(10); {
 	case k < 3:
 		c.Note("ns:known")
@@ -67,10 +110,6 @@ func genNamespace(c *hx.Ctx, utf8Only bool) string {
 		c.Note("ns:random-ascii")
 		return randASCII(r, 1+r.Intn(12))
 	case k < 9:
-		if utf8Only {
-			c.Note("ns:random-ascii")
-			return randASCII(r, 1+r.Intn(30))
-		}
 		c.Note("ns:random-bytes")
 		b := make([]byte, 1+r.Intn(8))
 		for i := range b {
@@ -522,6 +561,14 @@ func corpus(c *hx.Ctx) {
 		opYAML(c, id)
 		opProto(c, id)
 	}
+	// namespaces whose Go string-literal escapes are not JSON escapes, and bytes JSON / protobuf cannot carry
+	for _, ns := range []string{"a\x07b", "a\x0bb", "a\x00b", "a\x7fb", "a\U000e0020b", "a\u2028b", "a\"b\\", "a\xffb", "\xed\xa0\x80"} {
+		id := b6.FeatureID{Type: b6.FeatureTypePath, Namespace: b6.Namespace(ns), Value: 7}
+		opStr(c, id)
+		opJSON(c, id)
+		opYAML(c, id)
+		opProto(c, id)
+	}
 	for _, t := range tokenCorpus {
 		opToken(c, t)
 	}
@@ -546,7 +593,7 @@ func corpus(c *hx.Ctx) {
 func main() {
 	hx.Main(hx.Family{
 		Name: "c31",
-		Rule: "per case ~12 observations on IDs drawn from: 7 types x (19 known namespaces | 44 odd ones incl. a/b/c, trailing '/', YAML/JSON-hostile | random ASCII | random bytes | empty) x (edge/random 64-bit values | postcode- and ONS-encoded values); string/JSON/YAML/proto round trips, mutated ID strings, alias tokens (valid, near-miss), Less on related triples, compact order on random namespace tables (FeatureIDs.Less, and the iteration order of a real posting list built from 2-12 distinct IDs), postcode and ONS codecs; non-trivial = the case contains an ID with a '/'-bearing or alias namespace AND a value >= 2^32",
+		Rule: "per case ~12 observations on IDs drawn from: 7 types x (19 known namespaces | 44 odd ones incl. a/b/c, trailing '/', YAML/JSON-hostile | random ASCII | random bytes | empty | every C0 control, DEL, C1, U+2028/9, BOM, non-characters, unassigned / private-use supplementary runes, quotes, backslashes | invalid UTF-8 (surrogates, overlong, truncated, stray bytes) | leading / trailing white space | 130-330 and, rarely, 66000+ bytes), for every encoding alike x (edge/random 64-bit values | postcode- and ONS-encoded values); string/JSON/YAML/proto round trips, mutated ID strings, alias tokens (valid, near-miss), Less on related triples, compact order on random namespace tables (FeatureIDs.Less, and the iteration order of a real posting list built from 2-12 distinct IDs), postcode and ONS codecs; non-trivial = the case contains an ID with a '/'-bearing or alias namespace AND a value >= 2^32",
 		Quick:    2500,
 		Thorough: 150000,
 		Corpus:   corpus,
